@@ -151,9 +151,9 @@ def replay(seed, idx, desc, lay, be, graph):
 
 def run(tier, seed):
     chk = Check("C09", tier, seed, "other")
-    from ..kernels import c09_np_elementwise
+    from ..kernels import c09_np_elementwise, c09_nary
     from ..kernels.base import run_kernel
-    for k in c09_np_elementwise.KERNELS:
+    for k in c09_np_elementwise.KERNELS + c09_nary.KERNELS:
         chk.add_kernel(run_kernel(k, tier))
     ok, sites, failing = frame.rule_inplace()
     chk.add_rule("C09.S.inplace", ok, sites, failing)
